@@ -22,7 +22,7 @@ def encName : Enc → String
 
 def showValue : Value → String
   | .unknown => "unknown"
-  | .failed => "failed"
+  | .failed _ => "failed"
   | .void => "void"
   | .int b => s!"int {showBI' b}"
   | .str s enc => s!"str {hexOfChars s} {encName enc}"
